@@ -57,6 +57,10 @@ def run(chk):
         # any size: a third of the shapes (offset included) are rescaled exactly by a power of two between 2^-30 (1e-9) and 2^8
         if rng.random() < 0.34:
             P = P * 2.0 ** int(rng.integers(-30, 9))
+        # the same polygon listed clockwise (the constructor then gives it the normal -z) is the same set of points of the xy-plane
+        if rng.random() < 0.4:
+            P = P[::-1].copy()
+            kind += "/cw"
         V = np.c_[P, np.zeros(len(P))]
         if np.cross(V[2] - V[1], V[0] - V[1])[2] == 0:
             continue
@@ -94,6 +98,8 @@ def run(chk):
                 break
         pts = cen[:2] + d[:, None] * np.stack([np.cos(ang), np.sin(ang)], 1)
         m["pts"] = pts
+        if type(m["sh"]).__name__ == "ConvexPolygon":
+            branch_correspondence(chk, m["sh"], ang, d, m)
         m["j"] = len(cases2)
         clean = np.where(np.isfinite(pts), pts, 0.0)
         cases2.append(C.encode_case("winding2", sc=C.flat(clean), qs=C.flat(m["V"][:, :2])))
@@ -108,7 +114,7 @@ def run(chk):
         r2 = res2[m["j"]]
         ang, d, r, size = m["ang"], m["d"], m["r"], m["size"]
         cls = type(m["sh"]).__name__
-        irregular = m["kind"] != "regular"
+        irregular = not m["kind"].startswith("regular")
         for k in range(len(ang)):
             inside, bd2 = bool(r2[4 * k]), C.fl(r2[4 * k + 3])
             dist = math.sqrt(bd2)
@@ -121,6 +127,45 @@ def run(chk):
         chk.count("cls:" + cls); chk.count("kind:" + m["kind"])
         chk.sample(dict(cls=cls, kind=m["kind"], nverts=len(m["V"]), radius=r, theta=float(ang[0]), impl=float(d[0])))
     curved(chk, rng, 40 if chk.tier == "quick" else 600, nang)
+
+
+def branch_correspondence(chk, sh, ang, d, m):
+    """the branch formulas the theorem C14_edge_branches_are_ray_parameter is about (Model/DistanceBranches.v edge_distance), float-extracted,
+    against the implementation: for every angle the edge the ray actually leaves through is found here, and the model is evaluated on that
+    edge as the implementation sees it (vertices minus the implementation's centroid, angle reduced into [0, 2 pi))"""
+    P = (np.asarray(sh.vertices, float) - np.asarray(sh.centroid, float))[:, :2]
+    thm = np.mod(ang, 2 * math.pi)
+    lines, idx = [], []
+    n = len(P)
+    size = float(np.max(np.ptp(P, axis=0)))
+    for k in range(len(ang)):
+        u = np.array([math.cos(thm[k]), math.sin(thm[k])])
+        best = None
+        for i in range(n):
+            a, b = P[i], P[(i + 1) % n]
+            e = b - a
+            den = u[0] * e[1] - u[1] * e[0]
+            if abs(den) < 1e-9 * size:
+                continue
+            t = (a[0] * e[1] - a[1] * e[0]) / den
+            s_ = (a[0] * u[1] - a[1] * u[0]) / den
+            if t > 0 and 1e-6 < s_ < 1 - 1e-6 and (best is None or t < best[0]):
+                best = (t, i)
+        if best is None or abs(u[0]) < 1e-9:
+            continue
+        a, b = P[best[1]], P[(best[1] + 1) % n]
+        lines.append("E|%s" % C.hx([a[0], a[1], b[0], b[1], thm[k]]))
+        idx.append(k)
+    if not lines:
+        return
+    res = C.run_model_r(lines)
+    chk.count("model-correspondence:edge-branches", len(lines))
+    for r_, k in zip(res, idx):
+        if r_ is None or not (abs(r_.real - d[k]) <= 1e-9 * (size + abs(d[k]))):
+            chk.violation("model-vs-implementation", dict(cls="ConvexPolygon", vertices=m["V"].tolist(), theta=float(ang[k]), impl=float(d[k]),
+                                                          model=None if r_ is None else r_.real,
+                                                          what="the Coq model of the edge branch formulas (float-extracted) and the implementation differ"))
+            return
 
 
 def curved(chk, rng, n, nang):
